@@ -136,7 +136,7 @@ func oracle(prop string, x expect) func(in *ctl.Inst, r *vs.Result) []string {
 			}
 		}
 		// nodes outside the closed subtree still work: their caches follow the server (last mutation came after the close)
-		if !x.rootDown && !o.DoneAtRead && o.HistDone {
+		if !x.rootDown && !o.DoneAtRead && o.HistDoneAtRead {
 			srv := in.Srv
 			_ = srv
 			for p, c := range o.NodeCache {
